@@ -986,8 +986,16 @@ package psatoken
 //@   property C02 C03 C19 C05 C17 C18
 //@   requires e != nil
 //@   ensures[nomsg] e.message == nil ==> ret != nil
-//@   ensures[iff] e.message != nil ==> ((ret == nil) == (hasAlg(mapVal(e.message.Headers.Protected)) && verifierOK(algOf(mapVal(e.message.Headers.Protected)), pk) && e.message.Payload != nil && len(e.message.Signature) > 0 && sigValid(pk, algOf(mapVal(e.message.Headers.Protected)), tbs(protOf(e.message), 0, bytesVal(e.message.Payload)), bytesVal(e.message.Signature))))
+//@   ensures[iff] e.message != nil ==> ((ret == nil) == (hasAlg(mapVal(e.message.Headers.Protected)) && !keyMalformed(pk) && verifierOK(algOf(mapVal(e.message.Headers.Protected)), pk) && e.message.Payload != nil && len(e.message.Signature) > 0 && sigValid(pk, algOf(mapVal(e.message.Headers.Protected)), tbs(protOf(e.message), 0, bytesVal(e.message.Payload)), bytesVal(e.message.Signature))))
 //@   ensures[binding] ret == nil && evInv(e) && bound(e) ==> e.Claims == nil || prov(e.Claims) == bytesVal(e.message.Payload) || bytesVal(e.message.Payload) == cborEnc(e.Claims, signedAt(e))
+//@   modifies nothing
+
+// checkPublicKey DEFINES which keys count as malformed (the ones the crypto libraries panic on); its own
+// safety (type switch, field reads, len) is proved, the definition is audited by bounded:decode-no-panic,
+// which verifies tokens of three algorithm families against eleven such keys.
+//@ func checkPublicKey
+//@   property C05 C02 C17 C18
+//@   assumes[def-malformed] (ret != nil) == keyMalformed(pk) :: definition: malformed = what this function refuses; audited by bounded:decode-no-panic
 //@   modifies nothing
 
 //@ func (*Evidence).doSign
@@ -1125,7 +1133,7 @@ package psatoken
 //@ bounded[C02] strict-signature : ES256 and ES384 tokens with the signature (r, s) replaced by the different bytes (r, n-s) :: boundedStrictSignature()
 //@ bounded[C02,C03] tamper : 5 pairs of ES256 tokens over the valid claims-sets: every single-bit flip, every truncation, payload / signature / protected-header splices between two tokens, arbitrary signature bytes, the other key; thorough tier: 48 ES256, 4 ES384, 4 ES512, 4 EdDSA and 2 PS256 token pairs :: boundedTamper()
 //@ bounded[C20] envelope : envelopes from an independent CBOR writer: tags 0..30 and none, array lengths 0..6, each of the four elements replaced by 8 other item types, wrapped / null / array / empty / integer payloads, trailing bytes :: boundedEnvelope()
-//@ bounded[C19,C03] histories : all operation sequences of length <= 4 over {Sign ok, Sign with failing signer, Sign with empty signature, Sign with an unsupported algorithm and a junk signature, ValidateAndSign on invalid claims, UnmarshalCOSE genuine, UnmarshalCOSE garbage} on one Evidence (2 800 sequences); thorough tier: length <= 5 (19 607 sequences) :: boundedHistories()
+//@ bounded[C19,C03] histories : all operation sequences of length <= 4 over {Sign ok, Sign with failing signer, Sign with empty signature, Sign with an unsupported algorithm and a junk signature, ValidateAndSign on invalid claims, UnmarshalCOSE genuine, UnmarshalCOSE of a correctly signed envelope around undecodable claims, UnmarshalCOSE garbage} on one Evidence (4 680 sequences); thorough tier: length <= 5 (37 448 sequences) :: boundedHistories()
 //@ bounded[C17] race-audit : 16 goroutines x 20 iterations of encode / getters / validate / decode / verify / create / sign on shared and private objects under the race detector, results compared with a sequential run :: raceAudit()
 
 // ---------------------------------------------------------------- ghost lemma functions (verif_lemmas.go, build tag verif)
